@@ -50,6 +50,9 @@ func body(sc scen.Scenario) func(x *vsched.Exec) {
 		x.Join()
 		// let the background loops finish, then observe (observation only: C11 owns the fork-choice oracle)
 		x.Settle()
+		for _, m := range scen.CheckHeld(nd) {
+			x.Fail("block-modified-after-ProcessBlock-returned", m)
+		}
 		name := scen.BestName(nd)
 		var rs []string
 		for _, r := range results {
@@ -154,6 +157,12 @@ func racePass(run *ev.Run) {
 	}
 	if !strings.Contains(text, "RACEPASS-RUNS") {
 		ev.Fatal("race pass did not complete: %v\n%s", err, tail(text, 40))
+	}
+	for _, l := range strings.Split(text, "\n") {
+		if strings.HasPrefix(l, "RACEPASS-HELD-BLOCK-MODIFIED") {
+			run.Violation("block-modified-after-ProcessBlock-returned", "free-running pass: "+strings.TrimPrefix(l, "RACEPASS-HELD-BLOCK-MODIFIED "), map[string]interface{}{"line": l})
+			break
+		}
 	}
 	reports := strings.Split(text, "WARNING: DATA RACE")[1:]
 	run.Set("race_pass_reports", len(reports))
